@@ -1,6 +1,7 @@
 package props
 
 import (
+	"bytes"
 	"fmt"
 	"strings"
 	"time"
@@ -192,10 +193,26 @@ func init() {
 					return
 				}
 				human := fmt.Sprintf("content %s policies %v; snapshot taken on token(%s %v), restored for token(%s %v); authorizers created with %s", blk, pol, t1.authority, t1.blocks, t2.authority, t2.blocks, limName)
-				snap, err := c18Snapshot(tokA, blk, pol)
+				saved, _ := biscuit.NewVerifier(tokA, lim)
+				hx.Load(saved, blk, pol)
+				snap, err := saved.SerializePolicies()
 				if err != nil {
 					w.Class("snapshot-refused")
 					w.Violate("C18:snapshot-of-unevaluated-authorizer-refused", human, err.Error(), "bytes")
+					return
+				}
+				// saving is an observation: a second save gives the same bytes and the saved
+				// authorizer goes on to behave like one that was never saved
+				if snap2, err := saved.SerializePolicies(); err != nil || !bytes.Equal(snap, snap2) {
+					w.Class("second-snapshot-differs")
+					w.Violate("C18:second-snapshot-differs", human, fmt.Sprintf("%x (%v)", snap2, err), fmt.Sprintf("%x", snap))
+					return
+				}
+				unsaved, _ := biscuit.NewVerifier(tokA, lim)
+				hx.Load(unsaved, blk, pol)
+				if os, ou := c18Observe(saved), c18Observe(unsaved); os != ou {
+					w.Class("saving-changes-the-authorizer")
+					w.Violate("C18:saving-changes-the-authorizer", human, "after SerializePolicies: "+os, "never saved: "+ou)
 					return
 				}
 				direct, _ := biscuit.NewVerifier(tokB, lim)
